@@ -25,9 +25,11 @@ type respRow struct {
 	ReplyMAC    string `json:"reply_mac"`
 	RequestSeen int64  `json:"request_seen_unix_ns"`
 	RepliedIP   string `json:"replied_ip,omitempty"`
+	LastReply   int64  `json:"last_reply_unix_ns"`
+	Replies     int    `json:"replies"`
 }
 
-func respond(out, iface, ipStr string, after, total time.Duration, skip int) {
+func respond(out, iface, ipStr string, after, total time.Duration, skip, repeat int, every time.Duration) {
 	var ip net.IP // nil: answer the skip-th request seen, whatever address it asks for
 	if ipStr != "any" {
 		if ip = net.ParseIP(ipStr).To4(); ip == nil {
@@ -50,9 +52,10 @@ func respond(out, iface, ipStr string, after, total time.Duration, skip int) {
 	deadline := time.Now().Add(total)
 	for time.Now().Before(deadline) {
 		mu.Lock()
-		sent := row.ReplySent
+		sent := row.LastReply
+		done := row.Replies >= repeat || (row.ReplySent != 0 && repeat == 1)
 		mu.Unlock()
-		if sent != 0 && time.Since(time.Unix(0, sent)) > 1500*time.Millisecond {
+		if sent != 0 && done && time.Since(time.Unix(0, sent)) > 1500*time.Millisecond {
 			break
 		}
 		data, ci, err := h.ZeroCopyReadPacketData()
@@ -89,14 +92,23 @@ func respond(out, iface, ipStr string, after, total time.Duration, skip int) {
 				copy(f[28:32], ip)
 				copy(f[32:38], sha)
 				copy(f[38:42], spa)
-				t := time.Now().UnixNano()
-				if err := h.WritePacketData(f); err != nil {
-					fmt.Fprintln(os.Stderr, "respond: write:", err)
-					return
+				for k := 0; k < repeat; k++ {
+					if k > 0 {
+						time.Sleep(every)
+					}
+					t := time.Now().UnixNano()
+					if err := h.WritePacketData(f); err != nil {
+						fmt.Fprintln(os.Stderr, "respond: write:", err)
+						continue
+					}
+					mu.Lock()
+					if row.ReplySent == 0 {
+						row.ReplySent = t
+					}
+					row.LastReply = t
+					row.Replies++
+					mu.Unlock()
 				}
-				mu.Lock()
-				row.ReplySent = t
-				mu.Unlock()
 			}()
 		}
 	}
